@@ -971,6 +971,9 @@ Proof.
   cbn [XmlFront.c_error XmlFront.c_skip_lvl XmlFront.c_spine XmlFront.c_lang XmlFront.c_charset XmlFront.c_page XmlFront.c_root XmlFront.c_skip_start].
   replace (negb (XmlFront.WBXML_OK =? XmlFront.WBXML_OK)) with false by reflexivity. cbv iota.
   rewrite andb_false_r.
+  unfold XmlFront.flush_binary, XmlFront.start_child.
+  cbn [XmlFront.c_error XmlFront.c_skip_lvl XmlFront.c_spine XmlFront.c_lang XmlFront.c_charset XmlFront.c_page XmlFront.c_root XmlFront.c_skip_start].
+  replace (negb (XmlFront.WBXML_OK =? XmlFront.WBXML_OK)) with false by reflexivity. cbv iota.
   destruct (XmlFront.WBXML_MAX_NESTING_DEPTH <=? N.of_nat (List.length (@nil XmlFront.frame))); [reflexivity|].
   destruct (XmlFront.resolve_tag l name) as [tag page].
   unfold XmlFront.push_frame, XmlFront.set_page.
